@@ -21,7 +21,7 @@ ASSUMPTIONS = ['io.TextIOBase.read(n) may return fewer than n characters; only a
                'a blank-only segment is a don\'t-care for content (may be skipped or yielded empty) but must not raise; text after the last terminator is not a segment',
                'a segment with no non-empty element is compared in normal form only (format() writes "SE*~" for "SE~")',
                'path sources are restricted to ASCII text (the reader opens files as ASCII by design)']
-REQUIRED_COUNTERS = ['texts', 'reads', 'segments-compared', 'straddling-segments', 'sources:path', 'sources:file', 'sources:short-reads', 'roundtrips',
+REQUIRED_COUNTERS = ['texts', 'reads', 'segments-compared', 'straddling-segments', 'sources:path', 'sources:file', 'sources:short-reads', 'sources:resumed', 'roundtrips',
                      'expected:leading-blank', 'expected:trailing-sep', 'texts:long-segment', 'texts:empty-segment', 'texts:text-after-last-terminator']
 MIN_CASES = {'quick': 1300, 'thorough': 30000}
 
@@ -142,6 +142,27 @@ def read_all(src_factory, want_log=False):
         errs = [(e[0], e[1]) for e in r.pop_errors()]
         els = [[e.get_value() for e in comp.elements] for comp in seg.elements]
         out.append((seg.get_seg_id(), els, errs, seg))
+    return out, (r.seg_term, r.ele_term, r.subele_term)
+
+
+def read_resumed(src_factory, rng):
+    """the same reader consumed in several for-loops (peek at the ISA, stop after an IEA, go on later): every loop must pick up where the last one stopped"""
+    import pyx12.x12file
+    r = pyx12.x12file.X12Reader(src_factory())
+    out = []
+    more = True
+    while more:
+        more = False
+        limit = rng.choice([1, 1, 2, 3, 7, 20])
+        k = 0
+        for seg in r:
+            errs = [(e[0], e[1]) for e in r.pop_errors()]
+            els = [[e.get_value() for e in comp.elements] for comp in seg.elements]
+            out.append((seg.get_seg_id(), els, errs, seg))
+            k += 1
+            if k >= limit:
+                more = True
+                break
     return out, (r.seg_term, r.ele_term, r.subele_term)
 
 
@@ -281,8 +302,23 @@ def judge_text(ctx, text, meta, sigs):
             fd.write(text)
         sources.append(('path', lambda: fn))
         sources.append(('file', lambda: open(fn, 'r', encoding='ascii', newline='')))
+    if ctx.rng.random() < 0.5:
+        sources.append(('resumed', None))
     for name, fac in sources:
         log = []
+        if name == 'resumed':
+            ctx.count('sources:resumed')
+            try:
+                got, t2 = read_resumed(lambda: ChunkStream(text, chunk=ctx.rng.choice([64, 200, 8192])), ctx.sub_rng('resume', repr(meta)))
+            except Exception as ex:
+                ctx.viol('read:resumed:%s' % exc_key(ex), 'consuming one reader in several for-loops raised %s' % type(ex).__name__, dict(case, source=name), {'exc': repr(ex)})
+                continue
+            g = [(s[0], s[1], s[2]) for s in got]
+            if g != plain:
+                k = next((i for i, (a, b) in enumerate(zip(g + [None], plain + [None])) if a != b), None)
+                ctx.viol('stream-differs:resumed', 'consuming one reader in several for-loops loses, repeats or changes segments', dict(case, source=name),
+                         {'segments': len(g), 'segments_single_pass': len(plain), 'first_diff_index': k})
+            continue
 
         def fac2(fac=fac, log=log):
             s = fac()
